@@ -57,10 +57,30 @@ pub enum Topo {
     /// SOCKS5 only: one local socket, ONE association, alternately talking to two targets that
     /// have different host strings (127.0.0.1 / 127.0.0.2) and the same port
     TwoHosts,
+    /// real-time scenario (thorough tier): one local client sends one datagram per second for
+    /// 2 * UDP_PRUNE_TIMEOUT + 3 s while the target stays silent, then the target answers the last
+    /// request: the reply must still find its way back (the flow never went idle)
+    Steady,
+    /// real-time scenario (thorough tier): one exchange, silence for 2 * UDP_PRUNE_TIMEOUT + 1 s
+    /// (every flow table entry is pruned), another exchange: it must work again (a new flow is fine)
+    Idle,
+}
+
+/// length of the payloads of the real-time scenarios
+pub const SLOW_LEN: usize = 32;
+
+pub fn prune_timeout() -> Duration {
+    rusty_penguin_lib::config::UDP_PRUNE_TIMEOUT
 }
 
 impl Topo {
+    /// the topologies of the ordinary matrix
     pub const ALL: [Topo; 5] = [Topo::One, Topo::Three, Topo::Shared, Topo::TwoPorts, Topo::TwoHosts];
+    /// the real-time topologies (about 2 * UDP_PRUNE_TIMEOUT of wall time each, mostly asleep)
+    pub const SLOW: [Topo; 2] = [Topo::Steady, Topo::Idle];
+    pub fn slow(self) -> bool {
+        matches!(self, Topo::Steady | Topo::Idle)
+    }
     pub fn name(self) -> &'static str {
         match self {
             Topo::One => "1-client",
@@ -68,10 +88,12 @@ impl Topo {
             Topo::Shared => "1-socket-2-entries",
             Topo::TwoPorts => "1-association-2-targets-same-host",
             Topo::TwoHosts => "1-association-2-targets-same-port",
+            Topo::Steady => "steady-sender-silent-target",
+            Topo::Idle => "idle-longer-than-prune-timeout",
         }
     }
     pub fn parse(s: &str) -> Option<Self> {
-        Self::ALL.into_iter().find(|e| e.name() == s)
+        Self::ALL.into_iter().chain(Self::SLOW).find(|e| e.name() == s)
     }
 }
 
@@ -91,9 +113,10 @@ impl UdpCase {
     pub fn to_json(&self) -> Value {
         json!({
             "kind": "udp", "entry": self.kind.name(), "payload_len": self.size, "topology": self.topo.name(),
-            "exchanges_per_leg": EXCHANGES,
+            "exchanges_per_leg": self.exchanges(),
+            "udp_prune_timeout_s": prune_timeout().as_secs(),
             "payload_rule": "request(len, leg, seq): len 1 -> [0x40|leg<<4|seq]; len>=2 -> [0xC0|leg, seq, xorshift64* stream]; reply = request XOR mask bytewise, mask 0xA5 for target A and 0x5A for target B; exchange seq goes to target seq%2 in the two-target topologies; see c01_udp.rs",
-            "requests_hex": (0..self.legs().len()).map(|l| (0..EXCHANGES).map(|q| { let r = request(self.size, l, q); vcommon::report::hex(&r[..r.len().min(16)]) }).collect::<Vec<_>>()).collect::<Vec<_>>(),
+            "requests_hex": (0..self.legs().len()).map(|l| (0..self.exchanges().min(4)).map(|q| { let r = request(self.size, l, q); vcommon::report::hex(&r[..r.len().min(16)]) }).collect::<Vec<_>>()).collect::<Vec<_>>(),
         })
     }
     pub fn from_json(v: &Value) -> Option<Self> {
@@ -109,7 +132,16 @@ impl UdpCase {
             (Topo::Three, false) => vec![(0, 0), (1, 0), (2, 0)],
             (Topo::Three, true) => vec![(0, 0), (1, 1), (2, 2)],
             (Topo::Shared, _) => vec![(0, 0), (0, 1)],
-            (Topo::TwoPorts | Topo::TwoHosts, _) => vec![(0, 0)],
+            (Topo::TwoPorts | Topo::TwoHosts | Topo::Steady | Topo::Idle, _) => vec![(0, 0)],
+        }
+    }
+    /// number of request datagrams (with distinct payloads) a leg sends
+    pub fn exchanges(&self) -> usize {
+        match self.topo {
+            // one per second at t = 0, 1, ..., 2T+3
+            Topo::Steady => 2 * prune_timeout().as_secs() as usize + 4,
+            Topo::Idle => 2,
+            _ => EXCHANGES,
         }
     }
     /// Is this point part of the matrix? (the two-target topologies need a per-datagram destination)
@@ -250,15 +282,21 @@ struct LegResult {
     completed: usize,
     /// ... of which the answer was not the expected reply
     wrong: usize,
+    /// (key, description) to use instead of the generic "reply missing" when `completed` falls short
+    missing: Option<(String, String)>,
 }
 
 #[allow(clippy::too_many_arguments)]
 async fn run_leg(leg: usize, case: UdpCase, sock: Arc<UdpSocket>, log: Log, note: Arc<Notify>, entry: SocketAddr, targets: Vec<(SocketAddr, Option<String>)>, short: bool) -> LegResult {
     let socks = case.kind.socks();
-    let mut res = LegResult { sent: 0, sent_to: [0; 2], retrans: 0, completed: 0, wrong: 0 };
+    let mut res = LegResult { sent: 0, sent_to: [0; 2], retrans: 0, completed: 0, wrong: 0, missing: None };
     let mut earlier: Vec<Vec<u8>> = Vec::new();
     let waits = if short { WAITS_SHORT_MS } else { WAITS_MS };
-    for seq in 0..EXCHANGES {
+    for seq in 0..case.exchanges() {
+        if case.topo == Topo::Idle && seq == 1 {
+            // long enough for the client's map entry AND the server's forwarder to be pruned
+            tokio::time::sleep(2 * prune_timeout() + Duration::from_secs(1)).await;
+        }
         let req = request(case.size, leg, seq);
         let tk = case.target_idx(leg, seq);
         let (target, domain) = &targets[tk];
@@ -292,13 +330,121 @@ async fn run_leg(leg: usize, case: UdpCase, sock: Arc<UdpSocket>, log: Log, note
             }
         }
         match ok {
-            None => return res,
+            None => {
+                if case.topo == Topo::Idle && seq == 1 {
+                    res.missing = Some((
+                        format!("udp.reply.missing-after-idle.{}", case.kind.family()),
+                        format!(
+                            "the first exchange worked; after {} s of silence (UDP_PRUNE_TIMEOUT is {} s) the same local client sent again ({} transmissions over {} ms) and no reply came back",
+                            2 * prune_timeout().as_secs() + 1,
+                            prune_timeout().as_secs(),
+                            waits.len(),
+                            waits.iter().sum::<u64>()
+                        ),
+                    ));
+                }
+                return res;
+            }
             Some(true) => {}
             Some(false) => res.wrong += 1,
         }
         earlier.push(want);
         res.completed += 1;
         tokio::task::yield_now().await;
+    }
+    res
+}
+
+/// The steady sender: one datagram per second, a silent target, one reply at the end.
+#[allow(clippy::too_many_arguments)]
+async fn run_steady(case: UdpCase, sock: Arc<UdpSocket>, log: Log, note: Arc<Notify>, entry: SocketAddr, target: (SocketAddr, Option<String>), tsock: Arc<UdpSocket>, tlog: Log, short: bool) -> LegResult {
+    let socks = case.kind.socks();
+    let fam = case.kind.family();
+    let nx = case.exchanges();
+    let mut res = LegResult { sent: 0, sent_to: [0; 2], retrans: 0, completed: 0, wrong: 0, missing: None };
+    let wire_of = |seq: usize| {
+        let req = request(case.size, 0, seq);
+        if socks { proto::build_udp_request(target.0, target.1.as_deref(), &req) } else { req }
+    };
+    let started = Instant::now();
+    for seq in 0..nx {
+        if sock.send_to(&wire_of(seq), entry).await.is_ok() {
+            res.sent += 1;
+            res.sent_to[0] += 1;
+        }
+        if seq + 1 < nx {
+            // absolute schedule: the gaps never add up to more than a second each
+            tokio::time::sleep_until(tokio::time::Instant::from_std(started + Duration::from_secs(seq as u64 + 1))).await;
+        }
+    }
+    let last = request(case.size, 0, nx - 1);
+    // the last request has to be at the target (loss tolerance: up to 5 more transmissions, still one per second)
+    let mut src = None;
+    for attempt in 0..6 {
+        let until = Instant::now() + Duration::from_secs(1);
+        while Instant::now() < until {
+            if let Some((a, _)) = lk(&tlog).iter().find(|(_, d)| *d == last) {
+                src = Some(*a);
+                break;
+            }
+            tokio::time::sleep(Duration::from_millis(5)).await;
+        }
+        if src.is_some() || attempt == 5 {
+            break;
+        }
+        if sock.send_to(&wire_of(nx - 1), entry).await.is_ok() {
+            res.sent += 1;
+            res.sent_to[0] += 1;
+            res.retrans += 1;
+        }
+    }
+    let arrived = lk(&tlog).len();
+    res.completed = nx - 1;
+    let Some(src) = src else {
+        res.missing = Some((
+            format!("udp.request.lost-while-steady-sending.{fam}"),
+            format!("after {} s of sending one datagram per second, the last request (6 transmissions) never reached the target; the target received {arrived} of the {} datagrams sent", nx - 1, res.sent),
+        ));
+        return res;
+    };
+    // now the target answers the last request (and repeats the answer: loss tolerance)
+    let want = reply_of(&last, MASKS[0]);
+    let base = lk(&log).len();
+    let waits = if short { WAITS_SHORT_MS } else { WAITS_MS };
+    let mut ok = None;
+    for w in waits {
+        let _ = tsock.send_to(&want, src).await;
+        let until = Instant::now() + Duration::from_millis(w);
+        loop {
+            let notified = note.notified();
+            ok = answered(&log, socks, entry, &want, nx - 1, base, &[]);
+            if ok.is_some() || Instant::now() >= until {
+                break;
+            }
+            let _ = tokio::time::timeout(until.saturating_duration_since(Instant::now()), notified).await;
+        }
+        if ok.is_some() {
+            break;
+        }
+    }
+    match ok {
+        Some(true) => res.completed = nx,
+        Some(false) => {
+            res.completed = nx;
+            res.wrong += 1;
+        }
+        None => {
+            res.missing = Some((
+                format!("udp.reply.lost-after-steady-sending.{fam}"),
+                format!(
+                    "the local client sent one datagram per second for {} s (UDP_PRUNE_TIMEOUT is {} s; the target received {arrived} of them and stayed silent); the target then answered the last request {} times over {} ms, from the address the request came from: no reply reached the local client although its flow never went idle",
+                    nx - 1,
+                    prune_timeout().as_secs(),
+                    waits.len(),
+                    waits.iter().sum::<u64>()
+                ),
+            ));
+        }
     }
     res
 }
@@ -353,7 +499,7 @@ pub async fn run_udp(envr: &Env, case: &UdpCase, deadline_s: u64, short_waits: b
     let tlogs: Vec<Log> = (0..n_targets).map(|_| Arc::new(Mutex::new(Vec::new()))).collect();
     let mut tasks = Vec::new();
     for (k, ts) in tsocks.iter().enumerate() {
-        tasks.push(tokio::spawn(recv_loop(ts.clone(), tlogs[k].clone(), Arc::new(Notify::new()), Some(MASKS[k]))));
+        tasks.push(tokio::spawn(recv_loop(ts.clone(), tlogs[k].clone(), Arc::new(Notify::new()), if case.topo == Topo::Steady { None } else { Some(MASKS[k]) })));
     }
 
     // ---- subject
@@ -465,6 +611,10 @@ pub async fn run_udp(envr: &Env, case: &UdpCase, deadline_s: u64, short_waits: b
             .collect();
         let mut handles = Vec::new();
         for (l, (si, ei)) in legs.iter().enumerate() {
+            if case.topo == Topo::Steady {
+                handles.push(tokio::spawn(run_steady(case.clone(), socks_v[*si].clone(), logs[*si].clone(), notes[*si].clone(), entry_addrs[*ei], targets[0].clone(), tsocks[0].clone(), tlogs[0].clone(), short_waits)));
+                continue;
+            }
             handles.push(tokio::spawn(run_leg(l, case.clone(), socks_v[*si].clone(), logs[*si].clone(), notes[*si].clone(), entry_addrs[*ei], targets.clone(), short_waits)));
         }
         for h in handles {
@@ -510,7 +660,8 @@ pub async fn run_udp(envr: &Env, case: &UdpCase, deadline_s: u64, short_waits: b
     }
 
     // ---- oracle: the targets' logs
-    let all_lq: Vec<(usize, usize)> = (0..legs.len()).flat_map(|l| (0..EXCHANGES).map(move |q| (l, q))).collect();
+    let nx = case.exchanges();
+    let all_lq: Vec<(usize, usize)> = (0..legs.len()).flat_map(|l| (0..nx).map(move |q| (l, q))).collect();
     let tl: Vec<(SocketAddr, Vec<u8>)> = tlogs.iter().flat_map(|l| lk(l).clone()).collect();
     let mut sources = HashSet::new();
     for (k, tlog) in tlogs.iter().enumerate() {
@@ -608,7 +759,7 @@ pub async fn run_udp(envr: &Env, case: &UdpCase, deadline_s: u64, short_waits: b
             } else {
                 raw
             };
-            let issued = leg_results[*leg].as_ref().map_or(0, |r| (r.completed + 1).min(EXCHANGES));
+            let issued = leg_results[*leg].as_ref().map_or(0, |r| (r.completed + 1).min(nx));
             if (0..issued).any(|q| reply_of(&request(case.size, *leg, q), MASKS[case.target_idx(*leg, q)]) == payload) {
                 stats.replies_verified += 1;
                 continue;
@@ -658,7 +809,11 @@ pub async fn run_udp(envr: &Env, case: &UdpCase, deadline_s: u64, short_waits: b
         }
         stats.duplicates += recv_per_leg[l].saturating_sub(r.completed as u64);
         wrong_answers += r.wrong;
-        if r.completed < EXCHANGES {
+        if r.completed < nx {
+            if let Some((k, d)) = &r.missing {
+                push(k.clone(), format!("{d}; datagrams received by the local client from its entry point: {}", recv_per_leg[l]), true);
+                continue;
+            }
             let at_target = tl.iter().filter(|(_, d)| *d == request(case.size, l, r.completed)).count();
             push(
                 format!("udp.reply.missing.{fam}.{}", len_class(case.size)),
